@@ -137,6 +137,24 @@ def run(i, tier, props, seed, worktree=False):
     return det
 
 
+def table_md():
+    """markdown catch matrix for DESIGN.md section 14"""
+    print("| change | property | what it does (needs) | confirmed | caught by (quick checks) | own check |")
+    print("|---|---|---|---|---|---|")
+    for i in sorted(os.listdir(SEEDED)):
+        d = os.path.join(SEEDED, i)
+        if not os.path.isdir(d) or not os.path.exists(os.path.join(d, "meta.json")):
+            continue
+        m = meta(i)
+        det = json.load(open(os.path.join(d, "detection.json"))) if os.path.exists(os.path.join(d, "detection.json")) else {}
+        ver = json.load(open(os.path.join(d, "verified.json"))) if os.path.exists(os.path.join(d, "verified.json")) else {}
+        summ = re.sub(r"\s+", " ", m.get("summary", ""))[:150].replace("|", "/")
+        files = ",".join(os.path.basename(f) if "/" not in f[4:] else f[4:] for f in m.get("files_touched", []))[:60]
+        caught = ", ".join(det.get("caught_by", [])) or "—"
+        own = "yes" if det.get("caught_by_own_property_check") else ("no" if det else "not run")
+        print(f"| {i} | {m['property']} | `{files}`: {summ} | {'yes' if ver.get('confirmed') else 'NO'} | {caught} | {own} |")
+
+
 def table():
     rows = []
     for i in sorted(os.listdir(SEEDED)):
@@ -186,6 +204,8 @@ def main():
             list(ex.map(lambda i: run(i, opts["--tier"], opts["--props"], int(opts["--seed"]), wt), ids))
     elif cmd == "table":
         table()
+    elif cmd == "table-md":
+        table_md()
     return 0
 
 
